@@ -113,7 +113,8 @@ func (sandbox *SSHSandbox) initSequence(envs commservices.Environments) (reader 
 		eofTag   = "EOF" + varutil.RandString(10, varutil.UpperAlphaBytes)
 	)
 	for key, value := range envs.All() {
-		initCode += key + "=$(cat <<" + eofTag + "\n" + value + "\n" + eofTag + "\n)\n"
+		// quoted terminator: the value is data, the remote shell must not expand it
+		initCode += key + "=$(cat <<'" + eofTag + "'\n" + value + "\n" + eofTag + "\n)\n"
 		initCode += "export " + key + "\n"
 	}
 	initCode += sandbox.entrypoint + "\n"
